@@ -1,6 +1,71 @@
-(* C04: placeholder until the proofs are merged; a concrete run of the model. *)
+(* C04: The bind statement selects exactly the designated blocks.
+
+   Spec/Sem.select is the documented selection rule; the BIND instruction computes it over the completed
+   toplevel blocks of the named type, in definition order; a warning is logged iff a binding already
+   exists.  That `:all -> struct` and unknown selectors/targets are compile errors is part of the grammar
+   (Spec/Syntax.pbind) and of T2 (tested by t2check). *)
+From RecordUpdate Require Import RecordSet.
+Import RecordSetNotations.
+From BCL Require Import Model.Vm Spec.Sem Proofs.VmSpecProofs.
+Open Scope N_scope.
+
+(* for a valid selector/target byte the new binding is what Sem.select prescribes *)
+Theorem C04_bind : forall p m i m1 ty opt m2 s t,
+  read_uvarint (bind_warned p m) = Some (i, m1) -> get_const p i = Some (VStr ty) ->
+  read_byte m1 = Some (opt, m2) ->
+  sel_of opt = Some s -> tgt_of opt = Some t ->
+  exec_op p opBIND m = bind_outcome p m2 ty (Sem.select s t (matching_blocks ty (result m))).
+Proof. first [exact VmSpecProofs.C04_bind_spec | apply VmSpecProofs.C04_bind_spec]. Qed.
+Print Assumptions C04_bind.
+
+(* the exact order of the runtime checks *)
+Theorem C04_bind_check_order : forall p m i m1 ty opt m2,
+  read_uvarint (bind_warned p m) = Some (i, m1) -> get_const p i = Some (VStr ty) ->
+  read_byte m1 = Some (opt, m2) ->
+  let blocks := matching_blocks ty (result m) in
+  exec_op p opBIND m =
+  match blocks with
+  | [] => bind_no_blocks p m2 ty
+  | _ :: _ =>
+    if negb (nlen blocks =? 1) && (N.land opt 15 =? 1) then bind_not_one p m2 ty (nlen blocks)
+    else match sel_of opt, tgt_of opt with
+         | Some s, Some t => bind_outcome p m2 ty (Sem.select s t blocks)
+         | _, _ => bind_invalid p m2
+         end
+  end.
+Proof. first [exact VmSpecProofs.C04_bind_spec_raw | apply VmSpecProofs.C04_bind_spec_raw]. Qed.
+Print Assumptions C04_bind_check_order.
+
+(* candidates: completed toplevel blocks of that type, in definition order *)
+Theorem C04_matching_blocks : forall ty res,
+  matching_blocks ty res = filter (block_of_type ty) (rev res).
+Proof. first [exact VmSpecProofs.C04_matching_blocks_spec | apply VmSpecProofs.C04_matching_blocks_spec]. Qed.
+Print Assumptions C04_matching_blocks.
+
+Theorem C04_matching_blocks_in : forall ty res b,
+  In b (matching_blocks ty res) <-> In b res /\ exists n fs, b = VBlock ty n fs.
+Proof. first [exact VmSpecProofs.C04_matching_blocks_in | apply VmSpecProofs.C04_matching_blocks_in]. Qed.
+Print Assumptions C04_matching_blocks_in.
+
+(* every bind after the first warns, whatever its outcome *)
+Theorem C04_warning_iff_rebind : forall p m,
+  vwarn (fst (exec_op p opBIND m)) =
+  match bind_ m with
+  | BNone => vwarn m
+  | _ => (pos_at p (pc m), bs "repeated bind statement, last one overrides") :: vwarn m
+  end.
+Proof. first [exact VmSpecProofs.C04_warning_iff_rebind | apply VmSpecProofs.C04_warning_iff_rebind]. Qed.
+Print Assumptions C04_warning_iff_rebind.
+
+Theorem C04_select_invalid_iff : forall s t l, Sem.select s t l = SInvalid <-> (l <> [] /\ s = SelAll /\ t = TStructTgt).
+Proof. first [exact VmSpecProofs.select_invalid_iff | apply VmSpecProofs.select_invalid_iff]. Qed.
+Print Assumptions C04_select_invalid_iff.
+
 From BCL Require Import Model.Api.
 Example C04_example :
-  pr_ok (parse_whole (bs "input") (bs "var x = 1 print x + 2 * 3")) = true.
-Proof. vm_compute. reflexivity. Qed.
-Print Assumptions C04_example.
+  match snd (interpret (bs "input") (bs "def t ""a"" {} def u {} def t ""b"" {} bind t:last -> struct def t ""c"" {} bind t:all -> slice") false false false) with
+  | IRun _ rr => rr_res rr = VOk /\ length (rr_warn rr) = 1%nat
+                 /\ match rr_binding rr with BSlice [VBlock _ a _; VBlock _ b _; VBlock _ c _] => (a, b, c) = (bs "a", bs "b", bs "c") | _ => False end
+  | _ => False
+  end.
+Proof. vm_compute. repeat split; reflexivity. Qed.
